@@ -118,7 +118,8 @@ class Sys:
             return NotImplemented
         if fn.nargs != len(args):
             raise Unsupported(f"arity mismatch inlining {fn.name} for {t.func[:80]}")
-        e.push_call(st, fn, args, ret_dest=t.dest, ret_bb=t.target, unwind_bb=t.unwind)
+        e.push_call(st, fn, args, ret_dest=t.dest, ret_bb=t.target, unwind_bb=t.unwind,
+                    tsub=self.resolver.call_bindings(t.func, fn, fr.tsub) or {})
         return None
 
     def m_mem_drop(self, e, st, fr, t, args):
@@ -269,8 +270,15 @@ class Sys:
         st.event('default_actor', n)
         return VSym(f"actor_default{n}", 'A')
 
+    STRATEGIES = ('RestartOnly', 'RecreateFromDefault', 'NonRestartable')
+
     def m_refresh(self, e, st, fr, t, args):
-        strategy = getattr(self, 'strategy', 'RestartOnly')
+        # R as bound by the code that built this Environment (e.g. `Environment::<A, NonRestartable>::create_loop`);
+        # if the code is generic all the way up, the binding chosen by the program under exploration
+        bound = (fr.tsub or {}).get('R')
+        strategy = bound if bound in self.STRATEGIES else getattr(self, 'strategy', 'RestartOnly')
+        if bound is not None and bound not in self.STRATEGIES and bound != 'R':
+            raise Unsupported(f"restart strategy bound to {bound!r}")
         cands = [f for f in e.functions if f.name.endswith('::refresh') and f.nargs == 2 and
                  f"<{strategy} as RestartStrategy<A>>::refresh" in f.ret_type]
         if len(cands) != 1:
